@@ -342,7 +342,8 @@ class Driver:
                     ev.update(mid=mid, v=self.vid(digest(value)), size=true_size(value),
                               ovr=op.get("ovr", 0))
                     self.held.setdefault((op["f"], op["h"]), []).append(value)
-                    ovr = ("ovr/k%d" % op["ovr"]) if op.get("ovr") else None
+                    # (override key 2 contains '#', the separator of the versioned-key text `key#version`)
+                    ovr = ({1: "ovr/k1", 2: "ovr/run#2/k"}.get(op["ovr"], "ovr/k%d" % op["ovr"])) if op.get("ovr") else None
                     b.memoize(ovr, mem, value)
                     if not b.read_only:
                         self.mementos[mid] = mem
